@@ -235,6 +235,38 @@ func NPairs(ts []Template, tplIdx int) int {
 	return n
 }
 
+// NameNodes gives the NODES of the entry names an exporter or a graph-surgery script might leave behind: none at
+// all, one name for all, the per-operator counters of two exported graphs glued together (Constant_0 twice), names
+// that are tensor names. Node names carry no meaning in ONNX and need not be unique.
+func NameNodes(r *rng.R, e *Entry) {
+	mode := r.Intn(5)
+	count := map[string]int{}
+	for i := range e.Model.Nodes {
+		n := &e.Model.Nodes[i]
+		switch mode {
+		case 0:
+			n.NoName = true
+		case 1:
+			n.Name = "node"
+		case 2:
+			// every operator type counts from 0, and the counter restarts half-way through the graph
+			if i == len(e.Model.Nodes)/2 {
+				count = map[string]int{}
+			}
+			n.Name = fmt.Sprintf("%s_%d", n.Op, count[n.Op])
+			count[n.Op]++
+		case 3:
+			n.Name = fmt.Sprintf("%s_0", n.Op)
+		default:
+			if len(n.Out) > 0 && r.Bool() {
+				n.Name = n.Out[0]
+			} else if len(n.In) > 0 {
+				n.Name = n.In[0]
+			}
+		}
+	}
+}
+
 // RenameTricky renames every tensor of the entry (consistently, in the model and in the input sets) to names that
 // are legal but awkward: prefixes of one another, separators, spaces, non-ASCII, very long, or differing only in
 // case. Output names of recurrent nodes are left alone (LSTM on the pinned tree only knows Y / Y_h / Y_c).
